@@ -177,6 +177,6 @@ def run(ctx):
            "rule": "texts ≤ 300 chars of multilingual date strings + corpus strings + filler prose joined by mutated punctuation/spacing/line breaks; every one of the 205 languages explicitly (round-robin first), autodetection, two-language lists; ± RELATIVE_BASE, ± add_detected_language; non-trivial = distinct texts with well-formed hits",
            "samples": [{"text": j[0], "languages": j[1]} for j in jobs[:: max(1, len(jobs) // 6)][:6]],
            "outcome_kinds": dict(kinds), "hits_checked": hits, "contract_violations": len(viol),
-           "model_tie": tie_stats, "model_drift": len(tie_mism), "model_drift_samples": [{k: m[k] for k in ("layer", "locale", "text")} for m in tie_mism[:5]]}
+           "model_tie": tie_stats, "model_drift": len(tie_mism), "model_drift_samples": [{k: m.get(k) for k in ("layer", "locale", "text")} for m in tie_mism[:5]]}
     return {"violations": out, "known": [], "coverage": cov, "level": "proof",
             "assumptions": ["'occurs in the text up to whitespace' = containment after collapsing whitespace runs; text order = each hit is found at or after the previous one"]}
